@@ -165,3 +165,32 @@ Fixpoint py_dict_find {A} (d : list (Z * A)) (k : Z) : option A :=
   end.
 Definition py_dict_get {A} (d : list (Z * A)) (k : Z) : res A :=
   match py_dict_find d k with Some v => Ok v | None => Err EKey end.
+
+(* ---- one axis of an xarray array: (coordinate, value) pairs; its pandas index = the coordinates.
+   index.min() / index.max() raise ValueError on an empty index ---- *)
+From SE Require Export Arr.Index Arr.CropExtend.
+Definition py_idx_min (cs : list Q) : res Q := match cs with [] => Err EValue | c :: r => Ok (qmin_list c r) end.
+Definition py_idx_max (cs : list Q) : res Q := match cs with [] => Err EValue | c :: r => Ok (qmax_list c r) end.
+
+(* ---- shapely constructors on coordinate lists: a point is a list of exactly two numbers ---- *)
+Definition pts_lists (l : list pt) : list (list Q) := map (fun p => [fst p; snd p]) l.
+Fixpoint lists_pts (l : list (list Q)) : res (list pt) :=
+  match l with
+  | [] => Ok []
+  | [a; b] :: r => bind (lists_pts r) (fun r' => Ok ((a, b) :: r'))
+  | _ => Err EValue
+  end.
+Fixpoint map_res {A B} (f : A -> res B) (l : list A) : res (list B) :=
+  match l with
+  | [] => Ok []
+  | x :: r => bind (f x) (fun y => bind (map_res f r) (fun r' => Ok (y :: r')))
+  end.
+Definition shp_linestring (l : list (list Q)) : res shp := bind (lists_pts l) (fun p => Ok (SLine p)).
+Definition shp_point (c : list Q) : res shp := match c with [a; b] => Ok (SPoint (a, b)) | _ => Err EValue end.
+Definition shp_box (x0 y0 x1 y1 : Q) : shp := SPoly (box_ring x0 y0 x1 y1) [].
+Definition shp_polygon (shell : list (list Q)) (holes : list (list (list Q))) : res shp :=
+  bind (lists_pts shell) (fun s => bind (map_res lists_pts holes) (fun hs => Ok (SPoly (close_ring s) (map close_ring hs)))).
+Definition shp_multipoint (l : list (list Q)) : res shp := bind (lists_pts l) (fun p => Ok (SMultiPoint p)).
+Definition shp_multilinestring (ls : list (list (list Q))) : res shp := bind (map_res lists_pts ls) (fun x => Ok (SMultiLine x)).
+Definition shp_multipolygon (ps : list shp) : res shp :=
+  bind (map_res (fun s => match s with SPoly sh hs => Ok (sh, hs) | _ => Err EType end) ps) (fun x => Ok (SMultiPoly x)).
